@@ -372,6 +372,42 @@ pub fn plan(prop: &str, tier: Tier) -> Option<Plan> {
             rule.push_str(" | the same engines also run against the library built with debug assertions and overflow checks on (flavour dbg).");
         }
     }
+    // the `nsx` flavour: the crate WITHOUT std but WITH every optional dependency (serde, stable_deref_trait, unsize,
+    // arc-swap): the feature-gated impls compiled in their no_std form (`all` has them with std, `nostd` not at all)
+    if std::env::var_os("TV_BIN_NSX").is_some() {
+        let n = if q { 3000 } else { 150_000 };
+        let before = jobs.len();
+        match prop {
+            "C01" | "C04" | "C11" | "C12" => {
+                let p: &'static str = match prop {
+                    "C01" => "C01",
+                    "C04" => "C04",
+                    "C11" => "C11",
+                    _ => "C12",
+                };
+                jobs.push(jobb(sized_engine("tok8", p, if q { 48 } else { 128 }), n, "nsx"));
+                jobs.push(jobb(sized_engine("tok16", p, if q { 48 } else { 128 }), n / 3, "nsx"));
+                if prop == "C01" || prop == "C04" {
+                    jobs.push(jobb(thin_engine("8b/8", p, if q { 40 } else { 128 }), n, "nsx"));
+                } else {
+                    jobs.push(job(MatrixEngine::new(p), n * 4, "nsx"));
+                }
+            }
+            "C05" => jobs.push(job(MatrixEngine::new("C05"), n * 5, "nsx")),
+            "C10" => jobs.push(jobb(thin_engine("8b/8", "C10", if q { 40 } else { 128 }), n, "nsx")),
+            "C14" => {
+                for e in eng::cmp::engines(true) {
+                    jobs.push(jobb(e, if q { 1500 } else { 60_000 }, "nsx"));
+                }
+            }
+            #[cfg(feature = "serde")]
+            "C17" => jobs.push(job(eng::serde_eng::SerdeEngine, if q { 10_000 } else { 2_000_000 }, "nsx")),
+            _ => {}
+        }
+        if jobs.len() > before {
+            rule.push_str(" | the same engines also run against the crate built without std but with serde, stable_deref_trait, unsize and arc-swap on (flavour nsx).");
+        }
+    }
     // the ThreadSanitizer flavour (real threads, TSan as the oracle) joins the plan when its binary was built
     // (./check builds it for the thorough tier of the schedule-dependent properties, or with VERIF_TSAN=1)
     // compile probes: the impls / constructors exist for the whole class of payload types the property
